@@ -323,6 +323,10 @@ pub fn run(args: &Args, rec: &mut Recorder) {
             cross_file_case(rng, rec, k);
             return None;
         }
+        if case % 40 == 6 {
+            fragment_with_builtin_spec_case(rng, rec);
+            return None;
+        }
         if case % 20 == 17 || case % 20 == 3 {
             api_twin_case(&g, rng, rec, k, case / 20, args.thorough);
             return None;
@@ -513,6 +517,8 @@ pub fn run(args: &Args, rec: &mut Recorder) {
     rec.floor("bulk_push.group_over_32", 2);
     rec.floor("api_twin_models", 100);
     rec.floor("cross_file.module_pushed", 3);
+    rec.floor("cross_file.merged_and_sorted", 3);
+    rec.floor("fragment_with_builtin_spec", 3);
     rec.floor("cross_file.elements_pushed", 3);
     // ... and must have been built through the API (IF_DATA is reached through loading only)
     for e in &g.elements {
@@ -618,6 +624,44 @@ fn cross_file_case(rng: &mut Rng, rec: &mut Recorder, k: usize) {
         rec.violation("cross-file: generated document is rejected", "", witness_text("cross-file", &ta, &tb));
         return;
     };
+    // a third way to bring the content of another file in: merge_modules() followed by
+    // sort_new_items() (the merged elements are given their places); the names of the second file do
+    // not stand in alphabetical order
+    if rng.chance(1, 3) {
+        rec.bump("cross_file.merged_and_sorted");
+        let n = 2 + rng.below(6) as usize;
+        let mut order: Vec<usize> = (0..n).collect();
+        rng.shuffle(&mut order);
+        let mut tb2 = String::from("\n\nASAP2_VERSION 1 71\n/begin PROJECT p \"\"\n/begin MODULE b_mod \"\"\n");
+        for i in &order {
+            let _ = writeln!(tb2, "/begin MEASUREMENT b_m{i} \"\" UBYTE NO_COMPU_METHOD 0 0 0 255\n/end MEASUREMENT");
+            if rng.coin() {
+                let _ = writeln!(tb2, "/begin GROUP b_g{i} \"\" /begin REF_MEASUREMENT b_m{i} /end REF_MEASUREMENT\n/end GROUP");
+            }
+        }
+        tb2.push_str("/end MODULE\n/end PROJECT\n");
+        let Ok(Ok((mut b2, _))) = load_str(&tb2, true) else {
+            rec.violation("cross-file: generated document is rejected", "", witness_text("cross-file", &tb2, ""));
+            return;
+        };
+        let mut merged = a.clone();
+        if let Err((sig, detail)) = guarded(|| merged.merge_modules(&mut b2)) {
+            rec.violation(&format!("{sig} in merge_modules"), &detail, witness_text("cross-file", &ta, &tb2));
+            return;
+        }
+        if let Err((sig, detail)) = guarded(|| merged.sort_new_items()) {
+            rec.violation(&format!("{sig} in sort_new_items"), &detail, witness_text("cross-file", &ta, &tb2));
+            return;
+        }
+        if let Err((sig, detail)) = cycle_check(&merged, k, "") {
+            rec.violation(
+                &format!("{sig} [module of another file merged in, then sort_new_items()]"),
+                &detail,
+                witness_text("cross-file", &ta, &format!("second file: {tb2}; merge_modules(), sort_new_items()")),
+            );
+        }
+        return;
+    }
     let whole_module = rng.chance(1, 3);
     if whole_module {
         rec.bump("cross_file.module_pushed");
@@ -641,6 +685,49 @@ fn cross_file_case(rng: &mut Rng, rec: &mut Recorder, k: usize) {
             &detail,
             witness_text("cross-file", &ta, &format!("second file: {tb}; {}", if whole_module { "its MODULE pushed" } else { "some of its MEASUREMENTs and UNITs pushed" })),
         );
+    }
+}
+
+/// The entry points agree: a module body loaded with load_fragment(text, spec) equals the MODULE of
+/// the same body loaded inside a file with load_from_string(file, spec), also when the body has an
+/// A2ML block of its own next to the built-in specification and IF_DATA that both definitions accept.
+pub fn fragment_with_builtin_spec_case(rng: &mut Rng, rec: &mut Recorder) {
+    use a2lfile::A2lObjectNameSetter;
+    const TYPES: [&str; 6] = ["ulong", "float", "long", "double", "uint", "int64"];
+    let t_builtin = *rng.pick(&TYPES);
+    let t_file = *rng.pick(&TYPES);
+    let v = *rng.pick(&["100", "0x1F", "7", "65535", "0"]);
+    let spec = format!("block \"IF_DATA\" taggedunion {{ \"X\" {t_builtin}; }};");
+    let own_a2ml = rng.chance(3, 4);
+    let body = format!(
+        "{}/begin IF_DATA X {v} /end IF_DATA\n/begin MEASUREMENT x \"\" UBYTE NO_COMPU_METHOD 0 0 0 255 /begin IF_DATA X {v} /end IF_DATA /end MEASUREMENT\n",
+        if own_a2ml { format!("/begin A2ML\n  block \"IF_DATA\" taggedunion {{ \"X\" {t_file}; }};\n/end A2ML\n") } else { String::new() }
+    );
+    let file = format!("ASAP2_VERSION 1 71\n/begin PROJECT p \"\"\n/begin MODULE m \"\"\n{body}/end MODULE\n/end PROJECT\n");
+    rec.eval();
+    rec.bump("fragment_with_builtin_spec");
+    rec.nontrivial(format!("{spec}|{body}").as_bytes());
+    let frag = guarded(|| a2lfile::load_fragment(&body, Some(spec.clone())));
+    let whole = crate::gram::load_str_spec(&file, Some(spec.clone()), false);
+    let note = format!("built-in: {spec}");
+    match (frag, whole) {
+        (Err((sig, detail)), _) | (_, Err((sig, detail))) => rec.violation(&sig, &detail, witness_text("fragment + built-in spec", &body, &note)),
+        (Ok(Ok(mut fm)), Ok(Ok((wf, _)))) => {
+            fm.set_name("m".to_string());
+            if fm != wf.project.module[0] {
+                rec.violation(
+                    "load_fragment and load_from_string interpret the same module body differently (built-in specification given)",
+                    &format!("{note}; fragment: {:?} | file: {:?}", fm.if_data.first().map(|i| &i.ifdata_items), wf.project.module[0].if_data.first().map(|i| &i.ifdata_items)),
+                    witness_text("fragment + built-in spec", &body, &note),
+                );
+            }
+        }
+        (Ok(Err(e)), Ok(Ok(_))) => rec.violation(
+            &format!("module body accepted inside a file is rejected by load_fragment: {}", crate::gram::err_class(&e)),
+            &e.to_string(),
+            witness_text("fragment + built-in spec", &body, &note),
+        ),
+        _ => rec.bump("fragment_with_builtin_spec.file_rejected"),
     }
 }
 
